@@ -49,7 +49,7 @@ def is_usage(e, what):
 def r1(ctx):
     rep = Report("C15.R1", "accounting balance per RandomPolicy method: removals subtracted, additions only for successful stores and net of the replaced record, reset not stale", floor=10)
     f = ctx.facts
-    methods = [b for b in f.bodies.values() if b.impl_self == RP and b.kind == "assoc_fn" and b.name not in ("new", "decr_mem_usage")]
+    methods = [b for b in f.bodies.values() if b.impl_self == RP and b.kind == "assoc_fn" and (b.impl_trait is not None or b.name == "incr_mem_usage")]
     for b in sorted(methods, key=lambda x: x.path):
         rep.analysed(b)
         argn = [b.local_name(i) or "a%d" % i for i in b.arg_locals()]
@@ -111,6 +111,10 @@ def r1(ctx):
                 elif m in ("get", "check_if_expired"):
                     accounted = any(j > i for j, _ in subs)
                     rep.check(accounted, "%s:%s:expiry-removal-not-accounted" % (nm, m), "lazy expiry removal accounted", "the inner %s can remove an expired record (lazy expiry) but the policy never learns its size: expired items stay accounted forever" % m, b.loc())
+            # overwriting writes to the counter
+            for c_ in calls:
+                if c_.args and tform(c_.args[0]) == USAGE and c_.name.split("::")[-1] in ("store", "swap", "fetch_and", "fetch_min", "fetch_update", "compare_exchange", "compare_exchange_weak"):
+                    rep.bad("%s:usage-overwritten" % nm, "RandomPolicy::%s overwrites the usage counter (%s) instead of adding/subtracting record sizes: a reset is not atomic with the content (a concurrent set is accounted before it is inserted), so the counter drifts and later wraps — a live item is then evicted without memory pressure" % (nm, c_.name.split("::")[-1]), b.loc())
             # (e) the empty-store reset
             for j, s in subs:
                 arg = s.args[1]
